@@ -383,6 +383,11 @@ class StmtMixin:
                         out.append((s2, o2))
         # 3. exit
         ex_st = havoc(st)
+        for v in modified:
+            # a name first bound inside the loop is unbound after zero iterations: reading it afterwards is Python's
+            # UnboundLocalError, which no unit under contract relies on -- such a read makes the unit undecided
+            if v not in st.vars and v in ex_st.vars:
+                del ex_st.vars[v]
         ctxe = LoopCtx(self, ex_st, entry, length, seq, length=length)
         ex_st.assume(*lspec.inv(ctxe))
         ex_st.path.append("%s:exit" % name)
